@@ -15,10 +15,6 @@ Definition request_sources (r : request) : list string :=
 (* targets and all their ancestors in the request graph (ComputeGraph.filter(targets=...)).
    Requests are scanned from the last declared to the first: a source is always declared
    before its user. *)
-Definition needed_keys (reqs : list (string * (request * bool))) (targets : list string) : list string :=
-  fold_right (fun (nr : string * (request * bool)) (k : list string -> list string) needed =>
-                k needed) (fun needed => needed) reqs targets.
-
 Fixpoint needed_rev (rev_reqs : list (string * (request * bool))) (needed : list string) : list string :=
   match rev_reqs with
   | [] => needed
@@ -115,6 +111,20 @@ Definition eval_request (m : model) (p : string -> F) (ntimes : nat)
       end
   end.
 
+(* evaluate, in declaration order, the requests whose name is needed *)
+Fixpoint eval_requests (m : model) (p : string -> F) (ntimes : nat)
+         (outputs flows : list (list F)) (cvs : list (string * list F)) (needed : list string)
+         (reqs : list (string * (request * bool))) (acc : list (string * list F))
+  : result (list (string * list F)) :=
+  match reqs with
+  | [] => Ok acc
+  | nr :: rest =>
+      if mem_str (fst nr) needed then
+        do v <- eval_request m p ntimes outputs flows cvs acc (fst (snd nr));
+        eval_requests m p ntimes outputs flows cvs needed rest (acc ++ [(fst nr, v)])
+      else eval_requests m p ntimes outputs flows cvs needed rest acc
+  end.
+
 (* build_derived_outputs_runner + calc_derived_outputs: evaluate (only) what is needed for the
    requested keys, return the requested keys *)
 Definition derived_outputs (m : model) (p : string -> F) (ntimes : nat)
@@ -126,13 +136,15 @@ Definition derived_outputs (m : model) (p : string -> F) (ntimes : nat)
                   | wl => wl end in
   check guard (forallb (fun k => existsb (fun nr => String.eqb k (fst nr)) reqs) out_keys)
               "KeyError: whitelisted output was never requested";
+  (* every request's function is built, also of those the whitelist prunes: a cumulative output
+     whose start time is not a model time fails the build whatever the whitelist *)
+  check guard (forallb (fun nr => match fst (snd nr) with
+                                  | RCum _ (Some st) =>
+                                      let '(t0, _, h) := m_times m in
+                                      match start_index t0 h ntimes st with Some _ => true | None => false end
+                                  | _ => true end) reqs) "Start time not in times";
   let needed := match m_whitelist m with [] => map fst reqs | _ => needed_for reqs out_keys end in
-  do acc <- fold_left (fun racc (nr : string * (request * bool)) =>
-                         do acc <- racc;
-                         if mem_str (fst nr) needed then
-                           do v <- eval_request m p ntimes outputs flows cvs acc (fst (snd nr));
-                           Ok (acc ++ [(fst nr, v)])
-                         else Ok acc) reqs (Ok []);
+  do acc <- eval_requests m p ntimes outputs flows cvs needed reqs [];
   Ok (map (fun k => (k, lookup_series k acc)) out_keys).
 
 End Numeric.
